@@ -770,7 +770,7 @@ Definition stamp_of (w : bool) (e : event) : option value :=
 
 (* the row as a map, column by column *)
 Lemma make_row_get w e k :
-  dget k (make_row w e) =
+  dget k (make_row_base w e) =
   match k with
   | KTrialId => Some (VNum (Fin (inject_Z (ev_trial e))))
   | KDecision => Some (VTok (ev_decision e))
@@ -783,7 +783,7 @@ Lemma make_row_get w e k :
   | _ => dget k (ev_result e)
   end.
 Proof.
-  unfold make_row, set_time_fields, stamp_of.
+  unfold make_row_base, set_time_fields, stamp_of.
   set (r3 := dset KTrialId _ _).
   assert (Ht : dget KTunerTime (add_config (ev_config e) r3) = dget KTunerTime (ev_result e)).
   { rewrite dget_add_config. unfold r3. rewrite !dget_dset. reflexivity. }
@@ -796,7 +796,7 @@ Proof.
     destruct (dget KTunerTime (ev_result e)); reflexivity.
 Qed.
 
-Definition row_reflects (w : bool) (e : event) (row : dict) : Prop :=
+Definition row_reflects_base (w : bool) (e : event) (row : dict) : Prop :=
   dget KTrialId row = Some (VNum (Fin (inject_Z (ev_trial e)))) /\
   dget KDecision row = Some (VTok (ev_decision e)) /\
   dget KStatus row = Some (VTok (ev_status e)) /\
@@ -807,9 +807,9 @@ Definition row_reflects (w : bool) (e : event) (row : dict) : Prop :=
   (forall s, dget (KSt s) row = dget (KSt s) (ev_result e)) /\
   dget KTunerTime row = stamp_of w e.
 
-Lemma make_row_reflects w e : row_reflects w e (make_row w e).
+Lemma make_row_base_reflects w e : row_reflects_base w e (make_row_base w e).
 Proof.
-  unfold row_reflects.
+  unfold row_reflects_base.
   split; [rewrite make_row_get; reflexivity|].
   split; [rewrite make_row_get; reflexivity|].
   split; [rewrite make_row_get; reflexivity|].
@@ -820,6 +820,47 @@ Proof.
   split; [intro s; rewrite make_row_get; reflexivity|].
   split; [intro s; rewrite make_row_get; reflexivity|].
   rewrite make_row_get. reflexivity.
+Qed.
+
+(* the extra columns of the composer for key k: the last binding of k in what it returned *)
+Definition extra_binding (e : event) (k : key) : option value :=
+  match ev_extra e with Some x => aget key_eqb k (rev x) | None => None end.
+
+Lemma dict_update_snoc x kv r : dict_update (x ++ [kv]) r = dset (fst kv) (snd kv) (dict_update x r).
+Proof. unfold dict_update. rewrite fold_left_app. reflexivity. Qed.
+
+Lemma dget_dict_update x : forall r k,
+  dget k (dict_update x r) = match aget key_eqb k (rev x) with Some v => Some v | None => dget k r end.
+Proof.
+  induction x as [|kv x IH] using rev_ind; intros r k; [reflexivity|].
+  rewrite dict_update_snoc, dget_dset, rev_app_distr. cbn [rev app aget]. destruct kv as [k0 v0]. cbn [fst snd].
+  destruct (key_eqb k k0); [reflexivity | apply IH].
+Qed.
+
+(* the row: the columns fixed by [row_reflects_base], overridden / extended by the columns of the
+   composer; a composer returning None (or no composer) leaves the row as it is *)
+Definition row_reflects (w : bool) (e : event) (row : dict) : Prop :=
+  exists base, row_reflects_base w e base /\
+    forall k, dget k row = match extra_binding e k with Some v => Some v | None => dget k base end.
+
+Lemma make_row_reflects w e : row_reflects w e (make_row w e).
+Proof.
+  exists (make_row_base w e). split; [apply make_row_base_reflects|].
+  intro k. unfold make_row, append_extra, extra_binding. destruct (ev_extra e) as [x|]; [apply dget_dict_update | reflexivity].
+Qed.
+
+Lemma extra_binding_in e x k v : ev_extra e = Some x -> NoDup (map fst x) -> In (k, v) x -> extra_binding e k = Some v.
+Proof.
+  intros He Hnd Hin. unfold extra_binding. rewrite He. apply (aget_in_nodup key_eqb key_eqb_spec).
+  - rewrite map_rev. apply NoDup_rev. exact Hnd.
+  - apply in_rev in Hin. exact Hin.
+Qed.
+
+Lemma extra_binding_none e k :
+  match ev_extra e with Some x => ~ In k (map fst x) | None => True end -> extra_binding e k = None.
+Proof.
+  unfold extra_binding. destruct (ev_extra e) as [x|]; [|reflexivity]. intro H.
+  apply (aget_none_notin key_eqb key_eqb_spec). rewrite map_rev. intro H1. apply in_rev in H1. contradiction.
 Qed.
 
 Definition disk_ok (s : cb_state) : Prop :=
@@ -1793,4 +1834,113 @@ Proof.
   destruct (Hsome Hne) as (t1 & v1 & pre & post & Hp1 & _ & Hin & Hv & _ & Hor & _ & Hall).
   rewrite Hp in Hp1. injection Hp1 as <- <-.
   exists i, name, m, v. repeat split; assumption.
+Qed.
+
+(* ======================================================================== *)
+(* one Tuner object, several legs                                           *)
+(* ======================================================================== *)
+
+Definition leg_ok (l : leg) : Prop := lg_fails l FPrintBest = false /\ lg_fails l FCallbacksEnd = false.
+
+Lemma tuner_leg_spec st l : leg_ok l ->
+  let st' := fst (fst (tuner_leg st l)) in
+  cb_results (rs_cb st') =
+    cb_results (rs_cb st) ++ map (make_row (cb_wallclock (rs_cb st))) (run_delivered (lg_answers l) (lg_steps l)) /\
+  cb_disk (rs_cb st') = Some (cb_results (rs_cb st')) /\
+  cb_wallclock (rs_cb st') = cb_wallclock (rs_cb st) /\
+  rs_ts st' = fold_left ts_update (run_history (lg_answers l) (lg_steps l)) (rs_ts st).
+Proof.
+  intros [H1 H2]. unfold tuner_leg.
+  set (st0 := {| rs_cb := cb_on_tuning_start (rs_cb st); rs_ts := rs_ts st |}).
+  destruct (run_body_spec (lg_steps l) st0 (lg_answers l) eq_refl) as (cb' & Hf & Hb & _).
+  rewrite Hb.
+  pose proof (run_finally_spec (lg_fails l)
+               {| rs_cb := cb'; rs_ts := fold_left ts_update (run_history (lg_answers l) (lg_steps l)) (rs_ts st0) |}
+               H1 H2) as Hfin.
+  destruct (run_finally (lg_fails l) _ finally_block) as [[st2 r2] tr]. cbn [rs_cb rs_ts fst] in *.
+  destruct Hfin as (Hcb & Hts & _ & _ & _).
+  destruct (cb_feed_spec0 (run_delivered (lg_answers l) (lg_steps l)) (rs_cb st0) eq_refl)
+    as (cb2 & Hf2 & Hres & _ & Hw).
+  rewrite Hf in Hf2. injection Hf2 as <-. cbn in Hres, Hw.
+  rewrite Hcb. cbn [cb_on_tuning_end cb_store cb_results cb_disk cb_wallclock].
+  repeat split; [exact Hres | exact Hw | rewrite Hts; reflexivity].
+Qed.
+
+Lemma tuner_legs_spec legs : forall st, Forall leg_ok legs ->
+  let st' := tuner_legs st legs in
+  cb_results (rs_cb st') =
+    cb_results (rs_cb st) ++ map (make_row (cb_wallclock (rs_cb st))) (legs_delivered legs) /\
+  (legs <> [] -> cb_disk (rs_cb st') = Some (cb_results (rs_cb st'))) /\
+  rs_ts st' = fold_left ts_update (legs_history legs) (rs_ts st).
+Proof.
+  unfold legs_delivered, legs_history.
+  induction legs as [|l rest IH]; intros st Hok; cbn [tuner_legs flat_map].
+  - cbn. rewrite app_nil_r. repeat split. congruence.
+  - inversion Hok as [|? ? Hl Hrest]; subst.
+    destruct (tuner_leg_spec st l Hl) as (Hr & Hd & Hw & Hts). cbn zeta in *.
+    set (st1 := fst (fst (tuner_leg st l))) in *.
+    destruct (IH st1 Hrest) as (Hr2 & Hd2 & Hts2). cbn zeta in *.
+    repeat split.
+    + rewrite Hr2, Hr, Hw, map_app, app_assoc. reflexivity.
+    + intros _. destruct rest as [|l2 rest2]; [cbn; exact Hd | apply Hd2; discriminate].
+    + rewrite Hts2, Hts, fold_left_app. reflexivity.
+Qed.
+
+Theorem tuner_legs_table w old legs : legs <> [] -> Forall leg_ok legs ->
+  let st := tuner_legs (tuner_new w old) legs in
+  cb_results (rs_cb st) = map (make_row w) (legs_delivered legs) /\
+  Forall2 (row_reflects w) (legs_delivered legs) (cb_results (rs_cb st)) /\
+  cb_disk (rs_cb st) = Some (cb_results (rs_cb st)) /\
+  rs_ts st = ts_run (legs_history legs).
+Proof.
+  intros Hne Hok. destruct (tuner_legs_spec legs (tuner_new w old) Hok) as (Hr & Hd & Hts). cbn zeta in *.
+  cbn in Hr. repeat split.
+  - exact Hr.
+  - rewrite Hr. apply Forall2_map_r. intro e. apply make_row_reflects.
+  - apply Hd. exact Hne.
+  - rewrite Hts. reflexivity.
+Qed.
+
+(* one leg = tuner_run *)
+Lemma tuner_leg_first w old l :
+  tuner_leg (tuner_new w old) l = tuner_run w old (lg_answers l) (lg_steps l) (lg_fails l).
+Proof. reflexivity. Qed.
+
+(* ---- the frame: columns and cells ------------------------------------------ *)
+Lemma dget_some_of_key k (r : dict) : In k (map fst r) -> exists v, dget k r = Some v.
+Proof.
+  intro H. unfold dget. destruct (aget key_eqb k r) as [v|] eqn:E; [exists v; reflexivity|].
+  apply (aget_none_notin key_eqb key_eqb_spec) in E. contradiction.
+Qed.
+
+Lemma add_cols_origin r : forall cs k, In k (add_cols cs r) -> In k cs \/ In k (map fst r).
+Proof.
+  unfold add_cols. induction r as [|kv r IH]; intros cs k H; cbn [fold_left] in H; [left; exact H|].
+  apply IH in H. destruct H as [H|H]; [|right; right; exact H].
+  destruct (existsb (key_eqb (fst kv)) cs); [left; exact H|].
+  apply in_app_or in H. destruct H as [H|[<-|[]]]; [left; exact H | right; left; reflexivity].
+Qed.
+
+Lemma columns_origin rows : forall cs k, In k (fold_left add_cols rows cs) ->
+  In k cs \/ exists r, In r rows /\ In k (map fst r).
+Proof.
+  induction rows as [|r rows IH]; intros cs k H; cbn [fold_left] in H; [left; exact H|].
+  apply IH in H. destruct H as [H|(r' & Hr & Hk)].
+  - apply add_cols_origin in H. destruct H as [H|H]; [left; exact H | right; exists r; split; [left; reflexivity | exact H]].
+  - right. exists r'. split; [right; exact Hr | exact Hk].
+Qed.
+
+Theorem frame_spec rows :
+  NoDup (columns rows) /\
+  (forall k, In k (columns rows) <-> exists r v, In r rows /\ dget k r = Some v) /\
+  (forall (is_na : value -> bool) r j, (j < length (columns rows))%nat ->
+     nth j (map (frame_cell is_na r) (columns rows)) None = frame_cell is_na r (nth j (columns rows) KTrialId)).
+Proof.
+  destruct (columns_spec rows) as [Hnd Hhas]. split; [exact Hnd|]. split.
+  - intro k. split.
+    + intro H. unfold columns in H. apply columns_origin in H. destruct H as [[]|(r & Hr & Hk)].
+      destruct (dget_some_of_key k r Hk) as [v Hv]. exists r, v. split; assumption.
+    + intros (r & v & Hr & Hv). eapply Hhas; eassumption.
+  - intros is_na r j Hj. rewrite (nth_indep _ None (frame_cell is_na r KTrialId)) by (rewrite map_length; exact Hj).
+    apply map_nth.
 Qed.
